@@ -35,6 +35,9 @@ type mock struct {
 }
 
 func (m *mock) handle(part int, data []byte, total int, big bool) (bool, error) {
+	// the request as it was issued (every attempt, also the ones answered false / FLOOD_WAIT): no scheduling point lies
+	// between the uploader building the request and this record
+	m.o.Log("issue id=%d total=%d big=%v", part, total, big)
 	vsched.Point("rpc-save-part") // the RPC is a visible operation: other threads may run while it is in flight
 	a := m.attempts[part]
 	m.attempts[part] = a + 1
@@ -89,6 +92,22 @@ func check(p params, o *sx.Obs, x *vsched.Sched) kit.Result {
 	}
 	if o.Has("upload-error") {
 		return kit.Bad("unexpected-error", "%s", o.String())
+	}
+	// "Big-file parts carry the final part count once it is known": once a request carrying the final count has been
+	// issued, the count is known - every request issued after it (a later part, a re-sent earlier part) must carry it.
+	nParts := int((p.Size + partSize - 1) / partSize)
+	known := false
+	for _, e := range o.Events {
+		var id, total int
+		var big bool
+		if n, _ := fmt.Sscanf(e, "issue id=%d total=%d big=%t", &id, &total, &big); n == 3 && big {
+			if known && total != nParts {
+				return kit.Bad("total-parts:stale-after-known", "request for part %d issued with file_total_parts=%d after a request carrying the final count %d had been issued: %s", id, total, nParts, o.String())
+			}
+			if total == nParts {
+				known = true
+			}
+		}
 	}
 	type pt struct {
 		n, total int
@@ -170,7 +189,8 @@ func main() {
 		c.Rule("E-SCHED part: real uploader (instrumented telegram/uploader, tdsync, syncio, tgerr) with part size 1 KiB, streams/files of 1-5 parts, 2-3 worker "+
 			"threads, optional false/FLOOD_WAIT_0 answer for the first attempt of part 1, the mock RPC being a scheduling point; every schedule with <= %d "+
 			"preemptions and <= 6 non-default free choices; oracle: parts 0..n-1 stored exactly once with the source bytes, all but the last full, big parts "+
-			"carry the final count or -1 (only while it is unknown), descriptor states n parts.", bound)
+			"carry the final count or -1 (only while it is unknown: every request, including re-sent ones, issued after a request that carried the final count "+
+			"must carry it), descriptor states n parts.", bound)
 		if c.Shard < 0 {
 			return
 		}
